@@ -209,10 +209,15 @@ impl Hasher for Rec {
 //    through `Name::make_fat_pointer`, the crate's own way of forming a
 //    `&Name` (cf. `Name::root()`).  Every method under test reads the name
 //    only through `&self`, so its result is a function of that representation.
-//    This keeps the heap out of the comparison harnesses, which lets them
-//    quantify over EVERY valid name up to a wire length (all shapes, all label
-//    lengths, all octets) instead of a handful of shapes: Box<Name> operands
-//    cost 14-18 GB for the 7 small shapes (measured), the stack view < 2 GB.
+//    This keeps the allocator out of the comparison harnesses and lets them
+//    quantify over EVERY valid name up to a wire length (symbolic label
+//    structure, `any_name::<W>()`), not only over a few shapes.  With a
+//    concrete shape the label count, offsets and lengths are constants for
+//    CBMC's symbolic execution, whereas values read back from a heap
+//    allocation are not: rendering a ONE-octet Box<Name> did not get through
+//    symbolic execution in 20 min because `Label::fmt`'s loop was unwound to
+//    the bound each time (measured); the same name as a stack view renders
+//    and parses back in ~6 min.
 // --------------------------------------------------------------------------
 
 fn mk(w: &[u8]) -> Box<Name> {
@@ -529,7 +534,7 @@ fn c16_lowercase_name_2x2() {
 //
 // One operation per harness: a single harness with ==, cmp, hash and
 // eq_or_subdomain_of on a pair needs > 17 GB (measured); separately they need
-// 1-5 GB each.  Each operation comes in two quantifications:
+// 2-7 GB each.  Each operation comes in two quantifications:
 //   *_2x2  the 49 ordered pairs of the 7 shapes with <= 2 non-root labels of
 //          1..=2 octets (and the root), concrete layout per shape;
 //   *_wN   every ordered pair of valid names with wire length <= N (symbolic
@@ -572,7 +577,7 @@ fn c16_eq_w5() {
     check_eq(&any_name::<5>(), &any_name::<5>());
 }
 
-// @harness props=C16 tier=thorough mem=12 t=3400 fn="<Name as PartialEq>::eq,<Label as PartialEq>::eq,Name::labels"
+// @harness props=C16 tier=thorough mem=4 t=3400 fn="<Name as PartialEq>::eq,<Label as PartialEq>::eq,Name::labels"
 //   bound="every ordered pair of valid names of wire length <= 7 (all shapes, every octet value), stack view; unwind 9"
 //   sym="a,b: buf:[u8;7], len<=7"
 #[kani::proof]
@@ -613,7 +618,7 @@ fn c16_cmp_w5() {
     check_cmp(&any_name::<5>(), &any_name::<5>());
 }
 
-// @harness props=C16 tier=thorough mem=14 t=3400 fn="<Name as Ord>::cmp,<Label as Ord>::cmp,<Name as PartialEq>::eq,Name::labels,Labels::next_back"
+// @harness props=C16 tier=thorough mem=4 t=3400 fn="<Name as Ord>::cmp,<Label as Ord>::cmp,<Name as PartialEq>::eq,Name::labels,Labels::next_back"
 //   bound="every ordered pair of valid names of wire length <= 7 (all shapes, every octet value), stack view; unwind 9"
 //   sym="a,b: buf:[u8;7], len<=7"
 #[kani::proof]
